@@ -177,9 +177,17 @@ class JsonRPCClient:
 
         # Cancel any pending requests
         for id_, fut in self.protocol._request_futures.items():
-            if not fut.done():
+            if fut.done():
+                continue
+
+            if isinstance(fut, asyncio.Future):
+                # The handler of a request sent by the server is still running, there is
+                # nobody left to answer (and a task does not support `set_exception`).
+                fut.cancel()
+            else:
                 fut.set_exception(RuntimeError(reason))
-                logger.debug("Cancelled pending request '%s': %s", id_, reason)
+
+            logger.debug("Cancelled pending request '%s': %s", id_, reason)
 
         try:
             await self.server_exit(self._server)
